@@ -7,6 +7,7 @@ import (
 	"strings"
 	"sync"
 
+	"github.com/safing/portbase/config"
 	"github.com/safing/portbase/database"
 	"github.com/safing/portbase/database/query"
 	"github.com/safing/portbase/database/record"
@@ -50,17 +51,95 @@ type opSpec struct {
 }
 
 var keyPool = []string{"a/1", "a/2", "b/1", "b/2", "c"}
+
+// ---------------------------------------------------------------- the config database
+
+// execConfig executes an operation on the config module's injected database.
+// Records are exported options: the model keeps the active value (V = Q, -1 =
+// unset). Hooks and failing storage writes are not generated here.
+func (e *env) execConfig(op opSpec, k string) {
+	db, _, _, name := e.iface(op.Iface)
+	st := e.store[k]
+	switch op.Kind {
+	case "hook", "cancelhook", "setfail":
+		return
+
+	case "get":
+		var rec record.Record
+		var err error
+		e.safely("Get", func() { rec, err = db.Get(e.full(k)) })
+		if err != nil {
+			e.failf("GET: %s: Get(%q) on the config database failed: %v", name, k, err)
+		}
+		rec.Lock()
+		got, _ := readConfigLocked(rec)
+		rec.Unlock()
+		if got != *st {
+			e.failf("GET: %s: Get(%q) returned %s, expected %s", name, k, got, *st)
+		}
+
+	case "put", "putnew":
+		v := int64(op.V % 10)
+		w := newWrapper(e.full(k), []byte(fmt.Sprintf(`{"Value":%d}`, v)), false, false)
+		cur := srec{V: v, Q: v}
+		e.store[k] = &cur
+		e.modelNotify(k, cur)
+		var err error
+		e.safely(op.Kind, func() { err = e.doPut(db, op.Kind, w) })
+		if err != nil {
+			e.failf("PUT: %s: %s(%q) on the config database failed: %v", name, op.Kind, k, err)
+		}
+
+	case "delete":
+		// deleting an option through the database resets it; the deleted record is what was loaded
+		cur := *st
+		cur.Deleted = true
+		e.store[k] = &srec{V: -1, Q: -1}
+		e.modelNotify(k, cur)
+		var err error
+		e.safely("Delete", func() { err = db.Delete(e.full(k)) })
+		if err != nil {
+			e.failf("DELETE: %s: Delete(%q) on the config database failed: %v", name, k, err)
+		}
+
+	case "push":
+		// a change from the config side: the config module pushes the update itself
+		e.nPush++
+		var val any
+		cur := srec{V: -1, Q: -1}
+		if op.Flags&1 == 0 {
+			v := int64(op.V % 10)
+			val, cur = v, srec{V: v, Q: v}
+		}
+		e.store[k] = &cur
+		e.modelNotify(k, cur)
+		var err error
+		e.safely("SetConfigOption", func() { err = config.SetConfigOption(e.p.ns+k, val) })
+		if err != nil {
+			e.failf("PUSH: config.SetConfigOption(%q, %v) failed: %v", k, val, err)
+		}
+
+	default:
+		e.failf("harness: unknown op %q", op.Kind)
+	}
+}
+
 var prefixPool = []string{"", "a/", "a/1", "b/", "x/"}
 
 type cond struct {
-	Kind int
-	Arg  int
+	Kind  int
+	Arg   int
+	Field string // name of the integer field for kind 1 ("V", or "Value" for config options)
 }
 
 func (c cond) apply(q *query.Query) *query.Query {
 	switch c.Kind {
 	case 1:
-		return q.Where(query.Where("V", query.GreaterThan, c.Arg))
+		f := c.Field
+		if f == "" {
+			f = "V"
+		}
+		return q.Where(query.Where(f, query.GreaterThan, c.Arg))
 	case 2:
 		return q.Where(query.Where("S", query.SameAs, fmt.Sprintf("s%d", c.Arg)))
 	}
@@ -70,6 +149,9 @@ func (c cond) apply(q *query.Query) *query.Query {
 func (c cond) String() string {
 	switch c.Kind {
 	case 1:
+		if c.Field != "" {
+			return fmt.Sprintf(" where %s > %d", c.Field, c.Arg)
+		}
 		return fmt.Sprintf(" where V > %d", c.Arg)
 	case 2:
 		return fmt.Sprintf(" where S sameas s%d", c.Arg)
@@ -290,6 +372,8 @@ type env struct {
 	subs  []*msub
 	hooks []*hhook
 
+	read func(record.Record) (srec, bool)
+
 	stepNo int
 	opName string
 	// tombstoneGet: the current operation loaded a shadow-deleted record; whether
@@ -306,14 +390,22 @@ func newEnv(t fataler, backend string, shadow bool) *env {
 	if err != nil {
 		t.Fatalf("harness: cannot open %s database: %v", backend, err)
 	}
-	return &env{
+	e := &env{
 		t:     t,
 		p:     p,
 		w:     database.NewInterface(&database.Options{Local: true, Internal: true}),
 		u:     database.NewInterface(&database.Options{}),
 		store: map[string]*srec{},
 		fail:  map[string]bool{},
+		read:  readLocked,
 	}
+	if backend == beConfig {
+		e.read = readConfigLocked
+		for _, k := range keyPool {
+			e.store[k] = &srec{V: -1, Q: -1}
+		}
+	}
+	return e
 }
 
 func (e *env) failf(format string, args ...any) {
@@ -343,10 +435,37 @@ func (e *env) safely(what string, f func()) {
 }
 
 func snapFeedItem(r record.Record) (delivery, srec) {
+	return snapFeedItemWith(readLocked, r)
+}
+
+func snapFeedItemWith(read func(record.Record) (srec, bool), r record.Record) (delivery, srec) {
 	r.Lock()
 	defer r.Unlock()
-	cur, _ := readLocked(r)
+	cur, _ := read(r)
 	return delivery{key: r.DatabaseKey(), q: cur.Q, s: cur.S, deleted: cur.Deleted}, cur
+}
+
+// readConfigLocked reads an exported config option: the model of such a record
+// is {V: active value or -1 when unset, Q: the same, S: ""}.
+func readConfigLocked(r record.Record) (srec, bool) {
+	out := srec{V: -1, Q: -1}
+	if m := r.Meta(); m != nil {
+		out.Deleted = m.IsDeleted()
+		out.Secret = !m.CheckPermission(true, false)
+		out.Crown = !m.CheckPermission(false, true)
+	}
+	w, ok := r.(*record.Wrapper)
+	if !ok {
+		return out, false
+	}
+	var v struct{ Value *int64 }
+	if w.Format != dsd.JSON || json.Unmarshal(w.Data, &v) != nil {
+		return out, false
+	}
+	if v.Value != nil {
+		out.V, out.Q = *v.Value, *v.Value
+	}
+	return out, true
 }
 
 func fmtDeliveries(d []delivery) string {
@@ -507,7 +626,7 @@ func (e *env) checkStep() {
 					closed = true
 					break drain
 				}
-				d, cur := snapFeedItem(item)
+				d, cur := snapFeedItemWith(e.read, item)
 				if !cur.permits(s.local, s.internal) {
 					e.failf("DELIVERY: %s received %s %s which it may not see", who, d.key, cur)
 				}
@@ -562,8 +681,14 @@ func (e *env) checkStep() {
 // checkStorage compares a hook-free listing of the storage with the model.
 func (e *env) checkStorage() {
 	got := map[string]srec{}
-	if e.p.inj != nil {
-		for _, w := range e.p.inj.snapshot() {
+	if e.p.inj != nil || e.p.reg != nil {
+		var all []*record.Wrapper
+		if e.p.inj != nil {
+			all = e.p.inj.snapshot()
+		} else {
+			all = e.p.reg.snapshot()
+		}
+		for _, w := range all {
 			cur, _ := readLocked(w)
 			got[e.poolKey(w.DatabaseKey())] = cur
 		}
@@ -575,7 +700,7 @@ func (e *env) checkStorage() {
 		}
 		for r := range it.Next {
 			r.Lock()
-			cur, _ := readLocked(r)
+			cur, _ := e.read(r)
 			r.Unlock()
 			got[e.poolKey(r.DatabaseKey())] = cur
 		}
@@ -640,6 +765,10 @@ func (e *env) finish() {
 			_ = h.rh.Cancel()
 		}
 	}
+	if e.p.backend == beConfig {
+		// drop the options of this case again
+		config.VerifResetRegistry()
+	}
 }
 
 func (e *env) regFor(op opSpec) (*qreg, bool) {
@@ -649,6 +778,13 @@ func (e *env) regFor(op opSpec) (*qreg, bool) {
 	}
 	prefix := prefixPool[op.Prefix%len(prefixPool)]
 	c := cond{Kind: op.Cond % 3}
+	if e.p.backend == beConfig {
+		// an exported option has an integer "Value" (absent when unset) and no string field of the model
+		c.Field = "Value"
+		if c.Kind == 2 {
+			c.Kind = 0
+		}
+	}
 	switch c.Kind {
 	case 1:
 		c.Arg = op.CondArg % 10
@@ -668,6 +804,14 @@ func (e *env) newRec(op opSpec) srec {
 
 func (e *env) exec(op opSpec) {
 	k := keyPool[op.Key%len(keyPool)]
+	if e.p.backend == beConfig {
+		switch op.Kind {
+		case "sub", "cancelsub":
+		default:
+			e.execConfig(op, k)
+			return
+		}
+	}
 	switch op.Kind {
 	case "sub":
 		if len(e.subs) >= 6 {
@@ -739,7 +883,7 @@ func (e *env) exec(op opSpec) {
 		e.fail[k] = op.Fail
 
 	case "push":
-		if e.p.ctrl == nil {
+		if e.p.ctrl == nil && e.p.reg == nil {
 			return
 		}
 		cur := e.newRec(op)
@@ -747,6 +891,13 @@ func (e *env) exec(op opSpec) {
 		w.UpdateMeta()
 		e.nPush++
 		e.modelNotify(k, cur)
+		if e.p.reg != nil {
+			// the runtime value changes on the provider's side, the provider pushes it
+			cp := cur
+			e.store[k] = &cp
+			e.safely("runtime PushFunc", func() { e.p.reg.setAndPush(w) })
+			return
+		}
 		e.safely("Controller.PushUpdate", func() {
 			w.Lock()
 			e.p.ctrl.PushUpdate(w)
@@ -831,7 +982,8 @@ func (e *env) exec(op opSpec) {
 				return
 			}
 			stored, veto = e.modelPrePut(k, stored)
-			storageFails = veto == nil && e.fail[k]
+			// a runtime registry has no delete: the storage refuses
+			storageFails = veto == nil && (e.fail[k] || e.p.reg != nil)
 			if veto == nil && !storageFails {
 				if e.p.shadow {
 					cp := stored
